@@ -14,6 +14,8 @@ const (
 	// a never-created account and an existing empty-code account
 	ghost   = "0xdead00000000000000000000000000000000beef"
 	codeless = "0xc0de1e55000000000000000000000000000000aa"
+	// an account that exists in the pre-state but is empty (no balance, nonce or code)
+	emptyAcct = "0xe3b7000000000000000000000000000000000e3b"
 )
 
 func contractAddr(i int) string { return fmt.Sprintf("0xc0de%036x", i+1) }
@@ -147,7 +149,7 @@ func (g *genCtx) target(r *RNG) string {
 	case 2:
 		return hxu(uint64(1 + r.Intn(9))) // standard precompile
 	case 3:
-		return eoaB
+		return pick(r, []string{eoaB, emptyAcct, emptyAcct})
 	case 4:
 		return hxu(uint64(r.Intn(20)))
 	default:
@@ -294,6 +296,9 @@ func (g *genCtx) genCreate(r *RNG, p *Program, depth int) Macro {
 	if r.P(1, 4) {
 		val = hxu(uint64(r.Intn(50)))
 	}
+	if r.P(1, 12) {
+		val = "0xffffffffffffffffffff" // more than the creator owns: refused up front
+	}
 	return Macro{K: "create", Op: op, N: len(p.D) - 1, A: []string{val, hxu(uint64(r.Intn(3))), hxu(uint64(0x300 + 32*r.Intn(4)))}, Flag: flag}
 }
 
@@ -403,7 +408,20 @@ func (g *genCtx) genMacro(r *RNG, depth int) []Macro {
 		if r.P(1, 5) {
 			return g.genPrecompileCall(r)
 		}
-		return []Macro{g.genCall(r)}
+		c := g.genCall(r)
+		ms := []Macro{c}
+		if r.P(1, 3) {
+			// probe the account just touched (existing-but-empty accounts, warm/cold state)
+			probe := g.pickOp(r, []opAvail{{"EXTCODEHASH", "Constantinople"}, {"EXTCODESIZE", ""}, {"BALANCE", ""}, {"EXTCODEHASH", "Constantinople"}})
+			ms = append(ms, Macro{K: "op", Op: probe, A: []string{c.A[1]}, Dst: 1 + r.Intn(0x1c0)})
+			if r.P(1, 3) {
+				c2 := c
+				c2.A = append([]string{}, c.A...)
+				c2.A[2] = hxu(uint64(1 + r.Intn(5))) // then send value to it
+				ms = append(ms, c2)
+			}
+		}
+		return ms
 	case w < 83:
 		if g.noCalls || depth > 2 || (g.noIntro && g.noMcopy) {
 			// (tstore profile: init code would be copied from code into memory, making the
@@ -544,7 +562,7 @@ func genStdScenario(seed uint64, prop string, maxFork string) *Scenario {
 		g.targets = append(g.targets, contractAddr(i))
 	}
 	sc.Accounts = append(sc.Accounts, Account{Addr: eoaA, Balance: "0xffffffffffffffffffff"}, Account{Addr: eoaB, Balance: "0x3e8"},
-		Account{Addr: codeless, Balance: "0x1"})
+		Account{Addr: codeless, Balance: "0x1"}, Account{Addr: emptyAcct})
 	for i := 0; i < nc; i++ {
 		a := Account{Addr: contractAddr(i), Balance: hxu(uint64(r.Intn(5000))), Nonce: 1, Code: g.genProgram(r, 2+r.Intn(14))}
 		if r.Bool() {
